@@ -13,7 +13,7 @@ trials, sites, history = {}, {}, {}
 for f in sorted(glob.glob("/var/tmp/seed_round*.log"), key=os.path.getmtime):
     buf = []
     for line in open(f, errors="replace"):
-        m = re.match(r"RESULT (C\d+) \S*/(C\d+)/m(\d)\.diff (\S+)", line)
+        m = re.match(r"RESULT (C\d+) \S*/(C\d+)/m(\d+)\.diff (\S+)", line)
         if m:
             key = f"{m.group(2)}-m{m.group(3)}"
             trials.setdefault(key, {})[m.group(1)] = m.group(4)
@@ -38,7 +38,7 @@ extra = json.load(open("/var/tmp/seed_extra.json")) if os.path.exists("/var/tmp/
 n = 0
 for d in sorted(glob.glob(f"{SEEDS}/C*")):
     prop = os.path.basename(d)
-    for i in range(1, 10):
+    for i in range(1, 12):
         key = f"{prop}-m{i}"
         diff, demo, md = f"{d}/m{i}.diff", f"{d}/m{i}_demo.rs", f"{d}/m{i}.md"
         if not (os.path.exists(diff) and key in trial and (key in confirm or key in extra)):
